@@ -362,6 +362,7 @@ pub fn run(ctx: &Ctx) {
             (stream_case_strategy(CfgOpts { max_block: 256, ..Default::default() }, InOpts { budget: 1500, max_channels: 3, ..Default::default() }, false), any::<u64>(), 1usize..=4, any::<bool>())
                 .prop_map(|(b, seed, muts, fix_crc)| BlobCase { base: Some(b), seed, muts, fix_crc, len: 0 })
         }, check_blob);
+        crate::fuzzrun::campaign(ctx, "fz_parse", 8, crate::fuzzrun::runs(500_000), 2048);
     }
 }
 
